@@ -193,6 +193,9 @@ struct World {
     prev: Option<Sent>,
     last_bytes: Vec<u8>,
     target_filter: BloomFilter,
+    /// manager mode (`cfg … mgr=1`): the source was created through a real `NtpManager`; this is the Bloom filter the
+    /// manager ADVERTISES with no used sources, i.e. exactly the bits of the daemon's advertised server id
+    adv_filter: Option<BloomFilter>,
     reference: VecDeque<Vec<u8>>,
     cookie_tag: u32,
     bytes_mode: bool,
@@ -212,6 +215,15 @@ struct World {
     init_proto: ProtocolVersion,
     nonup_valid: usize,
     marker_seen: bool,
+}
+
+/// does `f` contain this daemon's id? — in manager mode "the id" is the one the manager advertises (all its bits set
+/// in `f`), independently of the id the manager handed to the source
+fn contains_own(server_id: &ServerId, adv: &Option<BloomFilter>, f: &BloomFilter) -> bool {
+    match adv {
+        Some(a) => a.as_bytes().iter().zip(f.as_bytes().iter()).all(|(x, y)| x & y == *x),
+        None => f.contains_id(server_id),
+    }
 }
 
 fn pick_server_id() -> (ServerId, BloomFilter) {
@@ -235,7 +247,8 @@ fn new_world(w: &[&str]) -> World {
         s => s.split(',').map(|x| x.parse().expect("lid")).collect(),
     };
     let sid = num("sid") as u32;
-    let (server_id, target_filter) = pick_server_id();
+    let mgr_mode = kv(w, "mgr") == Some("1");
+    let (server_id, mut target_filter) = pick_server_id();
     let source_info = Arc::new(RwLock::new(NtpSourceInfo {
         ip_list: lids.iter().map(|x| IpAddr::V4(Ipv4Addr::from(*x))).collect::<Vec<_>>().into(),
         server_id,
@@ -266,16 +279,35 @@ fn new_world(w: &[&str]) -> World {
         initial_poll_interval: PollInterval::from_byte(limits.0 as u8),
     };
     let controller = RecController { poll: config.poll_interval_limits.min, measurements: vec![], usable: vec![] };
-    let (mut source, _init_actions) = NtpSource::new(
-        SocketAddr::new(IpAddr::V4(Ipv4Addr::from(sid)), 123),
-        config,
-        proto,
-        controller,
-        ntsdata,
-        ClockId(1),
-        source_info,
-        Arc::default(),
-    );
+    let mut adv_filter = None;
+    let (mut source, _init_actions) = if mgr_mode {
+        // the real wiring: an `NtpManager` (several are tried until the advertised id has a bit in chunk 0, so that
+        // one chunk-0 answer can complete a peer's filter) creates the source through its own API
+        let mut sync = crate::config::SynchronizationConfig::default();
+        sync.local_stratum = num("lstrat") as u8;
+        let ip_list: Arc<[IpAddr]> = lids.iter().map(|x| IpAddr::V4(Ipv4Addr::from(*x))).collect::<Vec<_>>().into();
+        let mgr = loop {
+            let m = crate::system::NtpManager::new(sync, ip_list.clone());
+            let adv = m.update_used_sources(std::iter::empty()).bloom_filter;
+            if adv.as_bytes()[..16].iter().any(|b| *b != 0) {
+                target_filter = adv;
+                adv_filter = Some(adv);
+                break m;
+            }
+        };
+        mgr.new_source(SocketAddr::new(IpAddr::V4(Ipv4Addr::from(sid)), 123), config, proto, controller, ntsdata, ClockId(1))
+    } else {
+        NtpSource::new(
+            SocketAddr::new(IpAddr::V4(Ipv4Addr::from(sid)), 123),
+            config,
+            proto,
+            controller,
+            ntsdata,
+            ClockId(1),
+            source_info,
+            Arc::default(),
+        )
+    };
     // remote Bloom filter pre-filled through its public API: `1` = contains this daemon's id, `0` = the same
     // filter with chunk 0 blanked (one matching chunk-0 answer makes it contain the id)
     match kv(w, "bloom").expect("bloom") {
@@ -340,6 +372,7 @@ fn new_world(w: &[&str]) -> World {
         prev: None,
         last_bytes: vec![],
         target_filter,
+        adv_filter,
         reference,
         cookie_tag: 0,
         bytes_mode: false,
@@ -368,7 +401,7 @@ fn state_str(w: &World) -> String {
     };
     let bl = match snap.bloom_filter {
         None => "none".to_string(),
-        Some(f) => (f.contains_id(&w.server_id) as u8).to_string(),
+        Some(f) => (contains_own(&w.server_id, &w.adv_filter, &f) as u8).to_string(),
     };
     format!(
         " | reach={} unans={} lp={} ck={} proto={} strat={} rid={} bl={}",
@@ -970,7 +1003,21 @@ fn exec_incoming(wd: &mut World, w: &[&str], run: &mut Run, prop: Prop, key: &mu
         let sid = refid_u32(snap_after.source_id);
         let rid = refid_u32(snap_after.reference_id);
         let st = snap_after.stratum;
-        let bloom_loop = snap_after.bloom_filter.map(|f| f.contains_id(&si.server_id)).unwrap_or(false);
+        // (against the id this daemon ADVERTISES — in manager mode read off the manager's advertised filter, not the id
+        // the source happens to hold)
+        let bloom_loop = snap_after.bloom_filter.map(|f| contains_own(&wd.server_id, &wd.adv_filter, &f)).unwrap_or(false);
+        if wd.adv_filter.is_some() {
+            run.hit(if bloom_loop { "c33-mgr-peer-filter-has-own-id" } else { "c33-mgr-peer-filter-clean" });
+            // wiring invariant, directly: the id handed to the source is the advertised one
+            let handed = {
+                let mut f = BloomFilter::new();
+                f.add_id(&si.server_id);
+                f
+            };
+            if Some(handed.as_bytes()) != wd.adv_filter.as_ref().map(|a| a.as_bytes()) {
+                run.oracle_fail("one_server_id", "where=source", "the server id the manager handed to its source differs from the id in the manager's advertised Bloom filter");
+            }
+        }
         let is_self = local_ids.contains(&sid);
         let refid_loop = st > 1 && version != 5 && local_ids.contains(&rid);
         if us[0] {
@@ -1079,7 +1126,7 @@ fn exec_incoming(wd: &mut World, w: &[&str], run: &mut Run, prop: Prop, key: &mu
     }
     let ba = match snap_after.bloom_filter {
         None => "none".to_string(),
-        Some(f) => (f.contains_id(&wd.server_id) as u8).to_string(),
+        Some(f) => (contains_own(&wd.server_id, &wd.adv_filter, &f) as u8).to_string(),
     };
     op.push_str(&format!(" ba={}", ba));
     let st = state_str(wd);
@@ -1254,9 +1301,13 @@ fn gen_cfg(rng: &mut Rng, prop: Prop) -> (String, GenCfg) {
     let lids: Vec<u32> = (0..nl).map(|i| 0x0a00_0001 + i as u32).collect();
     let sid: u32 = if prop == Prop::C33 && !lids.is_empty() && rng.chance(1, 5) { lids[0] } else { 0xc0a8_0105 };
     let bloom = if proto != "v4" && rng.chance(if prop == Prop::C33 { 1 } else { 0 } + 1, 6) { *rng.pick(&["0", "1"]) } else { "none" };
+    // C33: half of the sources are created through a real NtpManager (the daemon's wiring of server ids); those get
+    // a pre-filled peer filter more often (with / one chunk short of this daemon's advertised id)
+    let mgr = prop == Prop::C33 && rng.chance(1, 2);
+    let bloom = if mgr && proto != "v4" && rng.chance(2, 3) { *rng.pick(&["0", "1", "1"]) } else { bloom };
     let mut s = format!(
-        "cfg min={} max={} nts={} proto={} lstrat={} lids={} sid={} bloom={}",
-        min, max, nts as u8, proto, lstrat, common::comma_list(&lids), sid, bloom
+        "cfg min={} max={} nts={} proto={} lstrat={} lids={} sid={} bloom={}{}",
+        min, max, nts as u8, proto, lstrat, common::comma_list(&lids), sid, bloom, if mgr { " mgr=1" } else { "" }
     );
     if nts {
         let l = match rng.below(10) {
